@@ -60,6 +60,7 @@ def write_replay(pid, tier, seed, v):
         "family": v.get("family"),
         "index": v.get("index"),
         "chunk_start": v.get("chunk_start"),
+        "prev_chunks": v.get("prev_chunks"),
         "history": v.get("history"),
         "case": v.get("case"),
         "violation": {k: v[k] for k in ("site", "clause", "cls", "detail")},
@@ -121,15 +122,28 @@ def replay(pid, path):
     # The single case is clean in a fresh process.  If the library carries state from earlier calls, the failure needs
     # its predecessors: re-execute the worker's chunk prefix (the cases that ran before it in the same process).
     cs = body.get("chunk_start")
-    if fam.kind != "bfs" and cs is not None and body.get("index") is not None and cs < body["index"]:
-        last = None
-        for i in range(cs, body["index"] + 1):
-            _case, last = fam.run_index(i, body["seed"])
-        for v in last.violations:
-            if (v["site"], v["clause"], v["cls"]) == (want["site"], want["clause"], want["cls"]):
-                print(f"  reproduced only after the {body['index'] - cs} preceding cases of its chunk (indices {cs}..{body['index']}): the library carries state between calls")
-                print(f"REPLAY-REPRODUCED property={pid} replay={path}")
-                return 1
+    if fam.kind != "bfs" and cs is not None and body.get("index") is not None:
+        for depth in (0, 1, 2, 3):  # the chunk prefix alone, then with 1..3 of the chunks the same worker ran before
+            prev = (body.get("prev_chunks") or [])
+            if depth > len(prev):
+                break
+            if depth == 0 and cs >= body["index"]:
+                continue
+            for pfi, pstart, pstop in prev[len(prev) - depth:]:
+                pf = fams[pfi]
+                if pf.kind == "bfs":
+                    continue
+                for i in range(pstart, pstop):
+                    pf.run_index(i, body["seed"])
+            last = None
+            for i in range(cs, body["index"] + 1):
+                _case, last = fam.run_index(i, body["seed"])
+            for v in last.violations:
+                if (v["site"], v["clause"], v["cls"]) == (want["site"], want["clause"], want["cls"]):
+                    print(f"  reproduced only after the calls that preceded it in its worker process ({depth} earlier chunk(s) + indices {cs}..{body['index']}): "
+                          f"the library carries state between calls")
+                    print(f"REPLAY-REPRODUCED property={pid} replay={path}")
+                    return 1
     print(f"REPLAY-NOT-REPRODUCED property={pid} ({len(viol)} other violations)")
     return 0
 
